@@ -1161,8 +1161,10 @@ pub fn main(tier: Tier) -> i32 {
     };
 
     // determinism slice: same plan, two executions, event-log hashes must agree
+    // (skipped when the batch already found divergences: the tree violates the property and the
+    // violation report below is what matters)
     let det_n = if tier == Tier::Quick { 24 } else { 400 };
-    for k in 0..det_n.min(n) {
+    for k in 0..(if tally.failures.is_empty() { det_n.min(n) } else { 0 }) {
         let plan = plan_for_run(seed, (k * 13) % n.max(1));
         let a = execute(&scratch, &golden, &plan, false);
         let b = execute(&scratch, &golden, &plan, false);
@@ -1170,8 +1172,13 @@ pub fn main(tier: Tier) -> i32 {
             (Ok(a), Ok(b)) if a.log_hash == b.log_hash => {}
             (Ok(a), Ok(b)) => {
                 // On a tree that violates C18 the outcomes themselves may flip; only complain
-                // when no divergence explains it.
-                if a.divergences.is_empty() && b.divergences.is_empty() {
+                // when no divergence explains it. Runs in which the baton holder blocked outside
+                // the seams (stall handoff) are timing dependent by nature.
+                if a.divergences.is_empty()
+                    && b.divergences.is_empty()
+                    && a.stats.stall_handoffs == 0
+                    && b.stats.stall_handoffs == 0
+                {
                     eprintln!("HARNESS-ERROR determinism self-check: run {} gave two different event logs", (k * 13) % n.max(1));
                     return 2;
                 }
